@@ -53,14 +53,16 @@ type Conf struct {
 	Lease    string   `json:"lease"`
 	Prefill  int      `json:"prefill,omitempty"`                 // clients bound before the explored history starts
 	PreLease bool     `json:"lease_time_plugin_first,omitempty"` // chain: lease_time 7200s, then range
+	NoShift  bool     `json:"-"`                                 // leave the edited-range restart out of the alphabet
 	MACs     []string `json:"macs"`                              // hex chaddr of the clients in the alphabet
 }
 
 type Op struct {
-	Kind  string `json:"kind"`            // discover | request | restart | age
-	MAC   string `json:"mac,omitempty"`   // hex chaddr (any length 0..16)
-	Host  string `json:"host,omitempty"`  // hex of option 12; "" = absent
-	Lease string `json:"lease,omitempty"` // restart: lease time argument
+	Kind  string `json:"kind"`                  // discover | request | restart | age
+	MAC   string `json:"mac,omitempty"`         // hex chaddr (any length 0..16)
+	Host  string `json:"host,omitempty"`        // hex of option 12; "" = absent
+	Lease string `json:"lease,omitempty"`       // restart: lease time argument
+	Shift int    `json:"range_shift,omitempty"` // restart with the configured range moved by this many addresses
 }
 
 type Case struct {
@@ -86,10 +88,17 @@ type Sys struct {
 	dead   bool
 	broken bool
 	aged   map[string]bool // ghost: clients whose lease ran out since they were last answered
+	shift  int             // the range currently configured is conf's moved by this much
 	crash  bool            // evaluate the crash/restart oracle after every live op
 }
 
 func ip2u(s string) uint32 { return binary.BigEndian.Uint32(net.ParseIP(s).To4()) }
+
+func u2ip(u uint32) string {
+	b := make(net.IP, 4)
+	binary.BigEndian.PutUint32(b, u)
+	return b.String()
+}
 
 func NewSys(r *ev.Run, id string, c Conf, crash bool) *Sys {
 	s := &Sys{r: r, id: id, conf: c, first: map[string]string{}, prom: map[string]time.Time{}, aged: map[string]bool{}, lease: c.Lease, start: ip2u(c.Start), end: ip2u(c.End), crash: crash}
@@ -107,7 +116,7 @@ func NewSys(r *ev.Run, id string, c Conf, crash bool) *Sys {
 
 func (s *Sys) setup(db, lease string) error {
 	defer reg.OpBegin(fmt.Sprintf("range %s-%s: Setup4 on %s after %d ops", s.conf.Start, s.conf.End, filepath.Base(db), len(s.hist)))()
-	h, err := rangeplugin.Plugin.Setup4(db, s.conf.Start, s.conf.End, lease)
+	h, err := rangeplugin.Plugin.Setup4(db, u2ip(s.start), u2ip(s.end), lease)
 	if err != nil {
 		return err
 	}
@@ -143,6 +152,11 @@ func (s *Sys) Ops() []Op {
 		other = "60s"
 	}
 	ops = append(ops, Op{Kind: "restart", Lease: other})
+	if s.shift == 0 && !s.conf.NoShift {
+		// the operator edits the range (start and end one address higher) and restarts on the
+		// same database: start-up may refuse, but it must not keep serving outside the range
+		ops = append(ops, Op{Kind: "restart", Lease: s.conf.Lease, Shift: 1})
+	}
 	if len(s.aged) < len(s.first) {
 		// wall-clock time passes: every lease handed out so far runs out
 		ops = append(ops, Op{Kind: "age"})
@@ -183,7 +197,7 @@ func (s *Sys) Key() string {
 		ag = append(ag, m)
 	}
 	sort.Strings(ag)
-	return fmt.Sprintf("recs=%v nbits=%d lease=%v ghost=%s expired=%v", recs, len(d.Bits), d.LeaseTime, s.ghostKey(), ag)
+	return fmt.Sprintf("recs=%v nbits=%d lease=%v ghost=%s expired=%v shift=%d", recs, len(d.Bits), d.LeaseTime, s.ghostKey(), ag, s.shift)
 }
 
 func (s *Sys) violate(prop, sig, what string) {
@@ -243,6 +257,23 @@ func (s *Sys) Apply(op Op, live bool) (obs string) {
 	if op.Kind == "restart" {
 		before := s.inst.VerifDump()
 		s.inst.VerifClose()
+		if op.Shift != 0 {
+			if s.end+uint32(op.Shift) < s.end {
+				return "shift-impossible"
+			}
+			s.start, s.end, s.shift = s.start+uint32(op.Shift), s.end+uint32(op.Shift), s.shift+op.Shift
+			if err := s.setup(s.db, op.Lease); err != nil {
+				// refusing to start with leases outside the edited range is legitimate
+				s.dead = true
+				class += "/edited-range-refused"
+				return "restart-refused-edited-range"
+			}
+			// it started: from now on every reply must lie in the NEW range (the oracles below
+			// use s.start/s.end), and bindings still inside it must be kept
+			s.lease = op.Lease
+			class += "/edited-range-accepted"
+			return "restart-ok-edited-range"
+		}
 		err := s.setup(s.db, op.Lease)
 		if err != nil {
 			s.dead = true
@@ -425,7 +456,7 @@ func (s *Sys) crashCheck() {
 // checkImage starts the real plugin on a DB image. inflight (chaddr hex), when set, is a
 // client whose request was being handled when the image was taken.
 func (s *Sys) checkImage(img, inflight string) {
-	h, err := rangeplugin.Plugin.Setup4(img, s.conf.Start, s.conf.End, s.lease)
+	h, err := rangeplugin.Plugin.Setup4(img, u2ip(s.start), u2ip(s.end), s.lease)
 	s.r.Add("crash_images", 1)
 	if err != nil {
 		s.violate("C03", "restart-fails/"+s.macLens(), fmt.Sprintf("starting the plugin on the database it wrote fails: %v", err))
@@ -493,7 +524,7 @@ func confs(thorough bool) []Conf {
 	}
 	cs := []Conf{
 		{Start: "10.0.0.10", End: "10.0.0.11", Lease: "60s", MACs: m(3)},
-		{Start: "10.0.0.254", End: "10.0.1.0", Lease: "1h", MACs: m(4)}, // crosses .255/.0
+		{Start: "10.0.0.254", End: "10.0.1.0", Lease: "1h", MACs: m(4), NoShift: !thorough}, // crosses .255/.0
 	}
 	if thorough {
 		cs = append(cs,
